@@ -1,5 +1,8 @@
 import RsddModel.Driver.WmcStream
 import RsddModel.Driver.CnfParse
+import RsddModel.Driver.SddStream
+import RsddModel.Model.SddWmc
+import RsddModel.Model.SddSemantic
 /-!
 # Driver: the `hash` stream (C11)
 
@@ -44,6 +47,22 @@ def checkHashProg (kvs okv : List (String × String)) : String := Id.run do
     let first := ((List.range (i + 1)).find? fun j => tts[j]? == tts[i]?).getD i
     if c > first then return s!"FAIL SPEC the semantic-hash builder judges results #{first} and #{i} different although they denote the same function"
     if c < first && P == Constants.u64largest then return s!"FAIL SPEC the semantic-hash builder judges results #{c} and #{i} equal although they denote different functions (64-bit field)"
+  -- mirrored models: the SDD fold on the model's own results, and the semantic-hash builder
+  match (lookup okv "vt1").bind parseVTree, ops.mapM toSddOp with
+  | some vt1, some sops =>
+    match Sdd.run ⟨vt1, true⟩ 200 sops with
+    | some pool =>
+      let mh := picks.map fun i => Sdd.semanticHash P (weightsOf ws) (pool.getD i .tru)
+      if some mh != (lookup okv "hs1").bind parseNatList then return s!"FAIL MODEL SDD semantic hash: model {mh}"
+    | none => return "FAIL MODEL sdd model rejects the program"
+    match SddSem.run vt1 P ws 200 sops with
+    | some pool =>
+      if "|".intercalate (pool.map (Sdd.ttString n)) != (lookup okv "semtt").getD "" then
+        return "FAIL MODEL semantic-hash builder: results differ from the mirrored builder"
+      let mh := picks.map fun i => Sdd.hashTree P (weightsOf ws) (pool.getD i .tru)
+      if some mh != (lookup okv "semh").bind parseNatList then return "FAIL MODEL semantic-hash builder: cached hashes differ"
+    | none => return "FAIL MODEL semantic-hash builder model rejects the program"
+  | _, _ => return "FAIL PARSE vt1/ops"
   let distinct := (want.eraseDups.filter fun h => h > 1).length
   return s!"ok nontrivial={if distinct > 1 then 1 else 0}"
 
